@@ -120,7 +120,11 @@ SUBSTR_MENU = [('r', 'T', None, 0), ('r', 'T', '1.0', 0), ('r', 'Ab', None, 0), 
 # Election family: one namespace, versions whose minor has two to four digits and majors 0, 1, 2, 10 (numeric
 # comparison of major, then minor: 1.150 < 2.0 < 10.0, 1.99 < 1.100 < 1.150 < 1.1000), in one and two directories.
 ELECT_VERS = ('0.100', '1.99', '1.100', '1.150', '2.0', '10.0', '1.1000')
-ELECT = [F(d, 'A', v) for v in ELECT_VERS for d in ('d1', 'd2')]
+ELECT = ([F(d, 'A', v) for v in ELECT_VERS for d in ('d1', 'd2')] +
+         # unmappable entries named A-2.0.typelib in the first environment directory
+         [F('d1', 'A', '2.0', inner='dangling'), F('d1', 'A', '2.0', inner='dir'),
+          # another namespace whose name has A as a proper prefix, with a higher version, next to the A files
+          F('d1', 'AExtras', '20.0')])
 ELECT_MENU = [('r', 'A', None, 0), ('q', 'd2', 'A', None, 0), ('p', 'd1'), ('r', 'A', '2.0', 0)]
 
 
@@ -197,10 +201,15 @@ Content = collections.namedtuple('Content', 'ns ver deps corrupt')
 _CONTENT = {}
 
 
+# entries that cannot be mapped at all: a dangling symbolic link, a directory named like the file.  The model
+# treats them as absent: they are skipped and never hide a loadable file of the same version later in the path.
+UNMAPPABLE = ('dangling', 'dir')
+
+
 def content(key):
     c = _CONTENT.get(key)
     if c is None:
-        if key == 'corrupt':
+        if key == 'corrupt' or key in UNMAPPABLE:
             c = Content(None, None, (), True)
         else:
             head, _, deps = key.partition('>')
@@ -214,13 +223,14 @@ def content(key):
 def all_content_keys():
     keys = set(f[3] for f in WIDE + CORE + WIDE_THOROUGH_EXTRA + SUBSTR + ELECT)
     keys.update(op[1] for op in MENU_BFS + SUBSTR_MENU if op[0] == 'm')
+    keys.difference_update(UNMAPPABLE)
     return sorted(keys)
 
 
 def build_pool(b):
     """Compile every content key once per build: <builddir>/c17pool-<hash>/<key>.typelib"""
     keys = all_content_keys()
-    tag = hashlib.sha1(('v5|' + '|'.join(keys)).encode()).hexdigest()[:10]
+    tag = hashlib.sha1(('v6|' + '|'.join(keys)).encode()).hexdigest()[:10]
     pool = os.path.join(b.dir, 'c17pool-' + tag)
     if os.path.exists(os.path.join(pool, 'OK')):
         return pool
@@ -325,9 +335,13 @@ class Config(object):
         self.files = tuple(files)
         self.at = {}
         self.bydir = {d: [] for d in DIRS}
+        slots = set()
         for d, ns, ver, key in files:
-            if (d, ns, ver) in self.at:
+            if (d, ns, ver) in slots:
                 raise ValueError('two files in one slot')
+            slots.add((d, ns, ver))
+            if key in UNMAPPABLE:
+                continue
             self.at[(d, ns, ver)] = key
             self.bydir[d].append((ns, ver, key))
 
@@ -748,8 +762,14 @@ class Runner(object):
         for d in DIRS:
             os.makedirs(os.path.join(root, d))
         for d, ns, ver, key in cfg.files:
-            with open(os.path.join(root, d, '%s-%s.typelib' % (ns, ver)), 'wb') as f:
-                f.write(self.blob(key))
+            path = os.path.join(root, d, '%s-%s.typelib' % (ns, ver))
+            if key == 'dangling':
+                os.symlink('/nonexistent/c17-dangling.typelib', path)
+            elif key == 'dir':
+                os.mkdir(path)
+            else:
+                with open(path, 'wb') as f:
+                    f.write(self.blob(key))
         return root
 
     def script(self, cfg, root, histories):
@@ -1000,7 +1020,7 @@ def _perm_key(key, nperm):
 
 def _perm_file(f, dperm, nperm):
     d, ns, ver, key = f
-    return (dperm[d], nperm[ns], ver, _perm_key(key, nperm))
+    return (dperm[d], nperm.get(ns, ns), ver, _perm_key(key, nperm))
 
 
 def _perm_op(op, dperm, nperm):
@@ -1216,7 +1236,8 @@ def run(ctx):
                  'every placement of exactly 3 files of the 12-file CORE alphabet and (bfs-substr) every placement of <= 3 of 5 '
                  'files over the namespaces T, Ab, CAb (T includes Ab and CAb, both include orders; own 6-op menu) and (bfs-elect) '
                  'every placement of <= 3 (thorough <= 4) of the 14 files A-{0.100,1.99,1.100,1.150,2.0,10.0,1.1000} x {d1,d2} '
-                 'with a 4-op menu (version election with multi-digit minors). thorough: (all-core3) every operation sequence of '
+                 'plus d1/A-2.0 as dangling symlink / as directory and d1/AExtras-20.0, with a 4-op menu (version election with '
+                 'multi-digit minors, unmappable entries, prefix-related namespace names). thorough: (all-core3) every operation sequence of '
                  'length 1..3 WITHOUT de-duplication over every placement of <= 3 CORE files (<= 4 files does not fit 10 minutes '
                  'at the measured ~5000 histories/s), (bfs-wide3) depth-2 BFS over every placement of <= 3 files of WIDE + 6 '
                  'more files, (bfs-asan) depth-2 BFS over <= 2 CORE files with the ASan+UBSan build. '
